@@ -436,6 +436,45 @@ func extractLocks(repo, out string) {
 		okLock := heldByCaller[fd.Name.Name] || (firstLock != token.NoPos && firstLock < firstAccess)
 		facts = append(facts, fmt.Sprintf("(%s, %v)", leanStr(fd.Name.Name), okLock))
 	}
+	// resolvePending (the queue-draining loop, which runs the fetcher, the registry client and the
+	// dependency finders with b.mu held): number of b.mu.Lock() calls, and number of b.mu.Unlock() calls
+	// that are not inside a deferred function — i.e. places where the lock is given up before the return
+	rpLocks, rpEarlyUnlocks := -1, -1
+	for _, d := range f.Decls {
+		fd, ok := d.(*ast.FuncDecl)
+		if !ok || fd.Recv == nil || fd.Body == nil || fd.Name.Name != "resolvePending" {
+			continue
+		}
+		rpLocks, rpEarlyUnlocks = 0, 0
+		deferred := map[ast.Node]bool{}
+		ast.Inspect(fd.Body, func(n ast.Node) bool {
+			if ds, ok := n.(*ast.DeferStmt); ok {
+				deferred[ds.Call] = true
+				if fl, ok := ds.Call.Fun.(*ast.FuncLit); ok {
+					ast.Inspect(fl, func(m ast.Node) bool {
+						if c, ok := m.(*ast.CallExpr); ok {
+							deferred[c] = true
+						}
+						return true
+					})
+				}
+			}
+			return true
+		})
+		ast.Inspect(fd.Body, func(n ast.Node) bool {
+			if c, ok := n.(*ast.CallExpr); ok {
+				switch exprText(c.Fun) {
+				case "b.mu.Lock":
+					rpLocks++
+				case "b.mu.Unlock":
+					if !deferred[c] {
+						rpEarlyUnlocks++
+					}
+				}
+			}
+			return true
+		})
+	}
 	sort.Strings(facts)
 	content := fmt.Sprintf(`/-! GENERATED by harness/cmd/extract from /repo/sourcebundle/builder.go — do not edit.
 For every Builder method that touches the shared queues / memo tables: does a `+"`b.mu.Lock()`"+` precede
@@ -444,8 +483,12 @@ namespace Slug.Generated
 
 def lockFacts : List (String × Bool) := [%s]
 
+/-- `+"`resolvePending`"+`: (number of `+"`b.mu.Lock()`"+` calls, number of `+"`b.mu.Unlock()`"+` calls outside deferred
+functions); (-1, -1) when the method was not found -/
+def resolvePendingLockOps : Int × Int := (%d, %d)
+
 end Slug.Generated
-`, strings.Join(facts, ", "))
+`, strings.Join(facts, ", "), rpLocks, rpEarlyUnlocks)
 	writeIfChanged(p, content)
 }
 
